@@ -232,6 +232,15 @@ def gen_case(rng, row, draw, thorough=False):
     # signing key ("image won't boot" is logged) is not kept by the configuration
     c["malformed"] = rng.getrandbits(32) if draw == 1 else 0
     c["cfg_rt"] = draw == 0 and c.get("sub", 0) in (0, 1) and c.get("digest") in (None, "auto")
+    # configuration path forward (config -> image): every spelling of the TrustZone keys
+    #   enableTrustZone {absent, true, false} x trustZonePresetFile {absent, "", a real binary preset file}
+    if (draw == 2 or (thorough and draw % 5 == 2)) and _has(mixins, "Ivt", "IvtZeroTotalLength"):
+        fw = {}
+        if "tz" in c and tzs:
+            words = [rng.choice([0, 0xFFFFFFFF, rng.getrandbits(32)]) for _ in range(tzs // 4)]
+            fw["tz"] = {"en": rng.choice("atf"), "pf": rng.choice("aeff"), "data": struct.pack(f"<{tzs // 4}I", *words).hex()}
+        fw["omit_defaults"] = rng.random() < 0.5      # optional keys whose value is the documented default are left out
+        c["cfg_fw"] = fw
     return c
 
 
@@ -772,6 +781,179 @@ def malformed_variants(rng_seed, e, case, tzs):
 AUTH_CLI = {"plain": "plain", "crc": "crc", "signed": "signed", "nxp_signed": "signed-nxp", "encrypted": "signed-encrypted"}
 
 
+def forward_config(case, row, out, cert_bin, tzkeys=None):
+    """The configuration a user writes for the option set of a case (files are put into `out`).  `tzkeys` = (en, pf, data)
+    overrides the spelling of the TrustZone keys: enableTrustZone absent / true / false ("a"/"t"/"f") and trustZonePresetFile
+    absent / empty string / a binary preset file ("a"/"e"/"f").  Returns (configuration, private key file)."""
+    fam, rev, tgt, auth, cn, itype, mixins, tzs, fixed = row
+    out = Path(out)
+    (out / "app.bin").write_bytes(bytes.fromhex(case["app"]))
+    cfg = {"family": fam, "revision": rev, "outputImageExecutionTarget": "xip" if tgt == "xip" else "load-to-ram",
+           "outputImageAuthenticationType": AUTH_CLI[auth], "masterBootOutputFile": "out.bin", "inputImageFile": "app.bin"}
+    if "load" in case:
+        cfg["outputImageExecutionAddress"] = hex(case["load"])
+    if "ver" in case:
+        cfg["imageVersion"] = case["ver"]
+    if "sub" in case:
+        cfg["outputImageSubtype"] = "main" if case["sub"] == 0 else "nbu" if _has(mixins, "ManifestDigest") or fam.startswith(("k32", "kw4", "mcxw7")) else "recovery"
+    if "tz" in case:
+        cfg["enableTrustZone"] = case["tz"][0] != "d"
+        if case["tz"][0] == "c":
+            (out / "tz.bin").write_bytes(bytes.fromhex(case["tz"][1]))
+            cfg["trustZonePresetFile"] = "tz.bin"
+    if "hwk" in case:
+        cfg["enableHwUserModeKeys"] = case["hwk"]
+    if "ks" in case and case["ks"][0] == "ks":
+        (out / "ks.bin").write_bytes(bytes.fromhex(case["ks"][1]))
+        cfg["keyStoreFile"] = "ks.bin"
+    if "hkey" in case:
+        cfg["outputImageEncryptionKeyFile"] = case["hkey"]
+    if "iv" in case:
+        cfg["CtrInitVector"] = case["iv"]
+    if "reloc" in case:
+        tab = []
+        for k, (img, dst) in enumerate(case["reloc"]):
+            (out / f"rel{k}.bin").write_bytes(bytes.fromhex(img))
+            tab.append({"binary": f"rel{k}.bin", "destAddress": hex(dst), "load": True})
+        cfg["applicationTable"] = tab
+    kf = None
+    if cert_bin is not None:
+        (out / "cert_block.bin").write_bytes(cert_bin)
+        ct = case["cert"]
+        kf = RSA_VARIANTS[ct["id"]][3] if ct["kind"] == "v1" else \
+            KC_ECC / (f"ec_pk_secp{ct['isk']}r1_sign_cert.pem" if ct["isk"] else f"ec_pk_secp{ct['curve']}r1_cert{ct['used']}.pem")
+        cfg["certBlock"] = "cert_block.bin"
+        cfg["signPrivateKey"] = str(kf)
+    if "fw" in case:
+        cfg["firmwareVersion"] = case["fw"]
+    if _has(mixins, "ManifestDigest"):
+        cfg["addManifestDigest"] = case.get("digest") == "auto"
+    if tzkeys is not None:
+        en, pf, data = tzkeys
+        cfg.pop("enableTrustZone", None)
+        cfg.pop("trustZonePresetFile", None)
+        if en != "a":
+            cfg["enableTrustZone"] = en == "t"
+        if pf == "e":
+            cfg["trustZonePresetFile"] = ""
+        elif pf == "f":
+            (out / "tz_keys.bin").write_bytes(bytes.fromhex(data))
+            cfg["trustZonePresetFile"] = "tz_keys.bin"
+    return cfg, kf
+
+
+def requested_tz(mixins, tzkeys):
+    """What the configuration REQUESTS, written from the schema text of the two keys (independent of the loaders):
+    `enableTrustZone`: "If not specified, the Trust zone is disabled"; `trustZonePresetFile`: "If not specified, but TrustZone
+    is enabled (enableTrustZone) the default values are used"; families with mandatory TrustZone have it always on."""
+    en, pf, data = tzkeys
+    optional = "Mbi_MixinTrustZone" in mixins
+    if optional and en != "t":
+        return ["d", ""]
+    return ["c", data] if pf == "f" else ["e", ""]
+
+
+def sanitize_for_config(case, row):
+    """option sets a configuration can express (sub types with a label, digest chosen by the key, key store data or none);
+    None = no valid image for this case"""
+    c = json.loads(json.dumps(case))
+    alen = len(bytes.fromhex(c["app"]))
+    if _has(row[6], "HmacMandatory") and alen + (-alen % 4) < 64:
+        return None
+    if c.get("sub", 0) > 1:
+        c["sub"] = 0
+    if c.get("digest") not in (None, "auto"):
+        c["digest"] = "auto"
+    if c.get("ks", ["none"])[0] in ("otp", "ks_empty"):
+        c["ks"] = ["none", ""]
+    return c
+
+
+def config_forward(case, row):
+    """configuration -> (both schema validations of the CLI) -> get_mbi_class -> load_from_config -> export, against
+    (1) what the configuration requests (TrustZone type bits, TrustZone block) and (2) the image built through the class
+    interface with the requested settings.  Returns (obs, failure triples)."""
+    import shutil
+    import tempfile
+    from spsdk.image.mbi import mbi as M
+    from spsdk.utils.schema_validator import check_config
+    fam, rev, tgt, auth, cn, itype, mixins, tzs, fixed = row
+    fc = sanitize_for_config(case, row)
+    if fc is None:
+        return {}, []
+    keys = case["cfg_fw"].get("tz")
+    tzkeys = (keys["en"], keys["pf"], keys["data"]) if keys else None
+    if tzkeys is not None:
+        fc["tz"] = requested_tz(mixins, tzkeys)
+    obs, fails = {}, []
+    out = tempfile.mkdtemp(prefix="c01fw-", dir=os.environ.get("VERIF_SCRATCH"))
+    try:
+        r = pyres(build, fc, row)
+        if r[0] != "ok":
+            return obs, [("option set requested by the configuration could not be constructed through the class interface", r, fc.get("tz"))]
+        obj, sp = r[1]
+        if "cert" in fc and fc["cert"]["kind"] == "v1":
+            obj.cert_block.alignment = 4
+        cert_bin = obj.cert_block.export() if "cert" in fc else None
+        r = pyres(obj.export)
+        if r[0] != "ok":
+            return obs, [("export of the option set requested by the configuration raised", r, None)]
+        e = bytes(r[1])
+        sr, ir = sig_range(obj, e, mixins), isk_sig_range(obj, e, mixins)
+        cfg, kf = forward_config(fc, row, out, cert_bin, tzkeys)
+        if case["cfg_fw"].get("omit_defaults"):
+            for key, dflt in (("imageVersion", 0), ("outputImageSubtype", "main"), ("firmwareVersion", 0), ("addManifestDigest", False)):
+                if key in cfg and cfg[key] == dflt:
+                    del cfg[key]
+            if "Mbi_MixinLoadAddressOptional" in mixins and cfg.get("outputImageExecutionAddress") == "0x0":
+                del cfg["outputImageExecutionAddress"]
+        shown = {k: v for k, v in cfg.items() if k in ("enableTrustZone", "trustZonePresetFile", "outputImageAuthenticationType", "outputImageExecutionTarget")}
+        shown["keys"] = sorted(cfg)
+        r = pyres(M.get_mbi_class, cfg)
+        if r[0] != "ok":
+            return obs, [("a valid configuration does not select a class", r, shown)]
+        cls2 = r[1]
+        if cls2.__name__ != type(obj).__name__:
+            fails.append(("the configuration selects another class than the one the database names for target / authentication", cls2.__name__, type(obj).__name__))
+        r = pyres(lambda: (check_config(cfg, cls2.get_validation_schemas_family()),
+                           check_config(cfg, cls2.get_validation_schemas(cfg["family"]), search_paths=[out, "."])))
+        if r[0] != "ok":
+            return obs, fails + [("a valid configuration is refused by the configuration schema", r, shown)]
+        m2 = cls2()
+        r = pyres(m2.load_from_config, cfg, [out])
+        if r[0] != "ok":
+            obs["loaded_tz"] = r[0]
+            return obs, fails + [("load_from_config of a valid configuration raised", r, shown)]
+        if hasattr(m2, "trust_zone"):
+            t = settings_of(m2, mixins).get("tz")
+            obs["loaded_tz"] = t[0] if t[0] != "c" else "c:" + (t[1] or "-")
+        else:
+            obs["loaded_tz"] = "none"
+        r = pyres(m2.export)
+        if r[0] != "ok":
+            return obs, fails + [("export of the image loaded from a valid configuration raised", r, shown)]
+        e1 = bytes(r[1])
+        if "tz" in fc and has_ivt_row(mixins) and len(e1) >= 0x28:
+            want = {"e": 0, "c": 1, "d": 2}[fc["tz"][0]]
+            got = (struct.unpack_from("<I", e1, 0x24)[0] >> 13) & 3
+            if got != want:
+                fails.append(("TrustZone type bits (15:13 of the flag word) of the image built from the configuration are not what the configuration requests "
+                              "(0 = default, 1 = custom preset, 2 = disabled)", {"bits": got, "keys": shown, "len": len(e1)}, {"bits": want, "len": len(e)}))
+            blk = bytes.fromhex(fc["tz"][1]) if fc["tz"][0] == "c" else b""
+            if "cert" not in fc and e1[len(e1) - len(blk):] != blk or len(e1) != len(e):
+                fails.append(("TrustZone block of the image built from the configuration is not what the configuration requests "
+                              "(preset data at the end of an unsigned image / no block)", {"len": len(e1), "tail": e1[-min(16, len(e1)):].hex(), "keys": shown},
+                              {"len": len(e), "tail": e[-min(16, len(e)):].hex()}))
+        if mask(e1, sr, ir) != mask(e, sr, ir):
+            a, b = mask(e1, sr, ir), mask(e, sr, ir)
+            d = next((i for i in range(min(len(a), len(b))) if a[i:i + 1] != b[i:i + 1]), min(len(a), len(b)))
+            fails.append(("image built from the configuration differs from the image built through the class interface with the same settings (outside the signature)",
+                          {"len": len(e1), "first_diff": d, "keys": shown}, {"len": len(e)}))
+        return obs, fails
+    finally:
+        shutil.rmtree(out, ignore_errors=True)
+
+
 def cli_roundtrip(case, row, scratch):
     """`nxpimage mbi export -c cfg` / `nxpimage mbi parse` / `nxpimage mbi export -c <parsed cfg>` through click's CliRunner:
     the configuration glue (schema validation, load_from_config of every mixin, file lookup) around the modelled core.
@@ -794,47 +976,7 @@ def cli_roundtrip(case, row, scratch):
         cert_bin = obj.cert_block.export() if "cert" in case else None
         e = bytes(obj.export())
         sr, ir = sig_range(obj, e, mixins), isk_sig_range(obj, e, mixins)
-        (out / "app.bin").write_bytes(bytes.fromhex(case["app"]))
-        cfg = {"family": fam, "revision": rev, "outputImageExecutionTarget": "xip" if tgt == "xip" else "load-to-ram",
-               "outputImageAuthenticationType": AUTH_CLI[auth], "masterBootOutputFile": "out.bin", "inputImageFile": "app.bin"}
-        if "load" in case:
-            cfg["outputImageExecutionAddress"] = hex(case["load"])
-        if "ver" in case:
-            cfg["imageVersion"] = case["ver"]
-        if "sub" in case:
-            cfg["outputImageSubtype"] = "main" if case["sub"] == 0 else "nbu" if _has(mixins, "ManifestDigest") or fam.startswith(("k32", "kw4", "mcxw7")) else "recovery"
-        if "tz" in case:
-            cfg["enableTrustZone"] = case["tz"][0] != "d"
-            if case["tz"][0] == "c":
-                (out / "tz.bin").write_bytes(bytes.fromhex(case["tz"][1]))
-                cfg["trustZonePresetFile"] = "tz.bin"
-        if "hwk" in case:
-            cfg["enableHwUserModeKeys"] = case["hwk"]
-        if "ks" in case and case["ks"][0] == "ks":
-            (out / "ks.bin").write_bytes(bytes.fromhex(case["ks"][1]))
-            cfg["keyStoreFile"] = "ks.bin"
-        if "hkey" in case:
-            cfg["outputImageEncryptionKeyFile"] = case["hkey"]
-        if "iv" in case:
-            cfg["CtrInitVector"] = case["iv"]
-        if "reloc" in case:
-            tab = []
-            for k, (img, dst) in enumerate(case["reloc"]):
-                (out / f"rel{k}.bin").write_bytes(bytes.fromhex(img))
-                tab.append({"binary": f"rel{k}.bin", "destAddress": hex(dst), "load": True})
-            cfg["applicationTable"] = tab
-        kf = None
-        if cert_bin is not None:
-            (out / "cert_block.bin").write_bytes(cert_bin)
-            ct = case["cert"]
-            kf = RSA_VARIANTS[ct["id"]][3] if ct["kind"] == "v1" else \
-                KC_ECC / (f"ec_pk_secp{ct['isk']}r1_sign_cert.pem" if ct["isk"] else f"ec_pk_secp{ct['curve']}r1_cert{ct['used']}.pem")
-            cfg["certBlock"] = "cert_block.bin"
-            cfg["signPrivateKey"] = str(kf)
-        if "fw" in case:
-            cfg["firmwareVersion"] = case["fw"]
-        if _has(mixins, "ManifestDigest"):
-            cfg["addManifestDigest"] = case.get("digest") == "auto"
+        cfg, kf = forward_config(case, row, out, cert_bin)
         (out / "cfg.yaml").write_text(yaml.safe_dump(cfg))
         runner = CliRunner()
 
@@ -954,6 +1096,7 @@ def real_settings_line(got, cert_hex):
 ROWS = None
 FINDING_MC56 = "C01-mc56-image-without-type-field"
 FINDING_KS = "C01-encrypted-keystore-source-without-data"
+SF = None
 
 
 def _worker_init():
@@ -976,6 +1119,14 @@ def _work(task):
             import traceback
             obs, fails = {}, [{"what": "evaluation of a case crashed: " + type(exc).__name__, "observed": traceback.format_exc()[-1500:],
                                "expected": None, "tag": None}]
+        if case.get("cfg_fw") is not None:
+            try:
+                fo, ff = config_forward(case, row)
+            except Exception as exc:  # noqa: BLE001
+                import traceback
+                fo, ff = {}, [("configuration path crashed: " + type(exc).__name__, traceback.format_exc()[-1500:], None)]
+            obs["cfg_fw"] = fo
+            obs["cfg_fw_fails"] = [list(x) for x in ff]
         out.append((case, obs, fails))
     return ri, out
 
@@ -1039,6 +1190,13 @@ def run(ck, only_rows=None):
                    "appended bytes, relocation header/entry fields) of exported plain and CRC images: accept/reject class and parsed settings, model vs implementation")
     sv = ck.stream("vx", "every mc56f81xxx / mwct20x2 row (header-less 'Vx' images: plain, CRC in the BCA, ECC signed with ISK certificate): export bytes (real signature plugged in), "
                    "parsed application / life cycle / firmware version, and the Vx theorem instances (frame outside the tool-owned ranges, parse(export)) in the compiled Model/MbiVx.lean")
+    global SF
+    SF = ck.stream("config_options", "configuration path forward, one draw of EVERY IVT row (thorough: every fifth draw): the configuration a user writes for the option set "
+                   "-> both schema validations of `nxpimage mbi export` -> get_mbi_class -> load_from_config -> export, with every spelling of the TrustZone keys "
+                   "(enableTrustZone absent/true/false x trustZonePresetFile absent/''/binary preset file; optional and mandatory TrustZone mixins): the TrustZone type "
+                   "bits and the TrustZone block of the image are what the configuration requests (schema text) and the image equals the one built through the class "
+                   "interface with the requested settings; the TrustZone `load_from_config` derives = compiled model's tzOfConfig (loaders GENERATED from the source); "
+                   "non-trivial = distinct (row, option set, key spelling)")
     ctx = multiprocessing.get_context("fork")
     nproc = min(8, os.cpu_count() or 2)
     extra_drivers = []
@@ -1109,6 +1267,14 @@ def _process_block(ck, results, drivers, shape_idx, groups, s, sc, st, sm, sv):
             for f in fails:
                 finding = FINDING_MC56 if fixed_conflict else FINDING_KS if ks_empty_enc else None
                 s.expect(False, inp, f["what"], f["observed"], f["expected"], finding=finding)
+            if "cfg_fw" in obs:
+                SF.note((row[:5], json.dumps(case["cfg_fw"].get("tz"), sort_keys=True), case["app"][:32]), cls=f"{tgt}/{auth}")
+                for what, o, x in obs["cfg_fw_fails"]:
+                    SF.expect(False, inp, what, o, x)
+                k = case["cfg_fw"].get("tz")
+                if drivers and k and "loaded_tz" in obs["cfg_fw"]:
+                    pf = "a" if k["pf"] == "a" else "e" if k["pf"] == "e" else "f:" + (k["data"] or "-")
+                    model_jobs.append((inp, [f"tzcfg shape={sh} tzsize={tzs} en={k['en']} pf={pf}"], [obs["cfg_fw"]["loaded_tz"]]))
             if drivers and vx and "export" in obs and not (fixed >= 0 and itype != fixed and False):
                 kind = "signed" if _has(mixins, "EccSignVx") else "crc" if _has(mixins, "CrcSignBca") else "plain"
                 e = obs["export"]
@@ -1187,6 +1353,12 @@ def _process_block(ck, results, drivers, shape_idx, groups, s, sc, st, sm, sv):
                     if op in ("vxexport", "vxparse", "vxthm"):
                         sv.note((inp["row"], hash(ln)))
                         sv.compare({**inp, "op": op}, _short_line(r), _short_line(a), f"{op}: mc56 (Vx) model differs from implementation / theorem instance false")
+                    elif op == "tzcfg":
+                        req = {"d": 2, "e": 0, "c": 1}.get(r[:1], -1)
+                        mine = ";".join(t for t in a.split(";") if not t.startswith("loader="))
+                        SF.compare({**inp, "op": op}, f"{r};req={req}" if req >= 0 else r, mine if req >= 0 else mine.split(";")[0],
+                                   "tzcfg: the TrustZone setting load_from_config derives from the configuration keys differs from the model's tzOfConfig "
+                                   "(GENERATED loaders), or is not what the keys request (req: tag requested per schema text)")
                     elif op == "mparse":
                         sm.note((inp["row"], hash(ln)))
                         sm.compare({**inp, "variant": ln[:0]}, _short_line(r), _short_line(a), "malformed image: parser verdict / settings differ between model and implementation")
